@@ -35,6 +35,8 @@ pub enum SEv {
     Upgrade,
     /// set_config(syncing = disabled / enabled) by the controller
     SetSyncing(bool),
+    /// set_config(disable_api_if_not_fully_synced = enabled) by the controller
+    SetGate,
 }
 
 pub struct ParkedHb {
@@ -202,6 +204,8 @@ pub struct SCtx {
     pub syncing: bool,
     /// reference: pool blocks announced in replies the canister has processed
     pub announced_ref: std::collections::BTreeSet<usize>,
+    /// the sync flag is currently on
+    pub gate_on: bool,
 }
 
 pub struct SchedModel {
@@ -221,6 +225,8 @@ pub struct SchedModel {
     pub syncing_toggles: bool,
     /// canister with disable_api_if_not_fully_synced: judge the sync gate in every state (C14)
     pub sync_gate: bool,
+    /// start with the sync flag off and let the controller switch it on at any point
+    pub gate_toggle: bool,
 }
 
 fn hash_of_bh(h: &ic_btc_types::BlockHash) -> H32 {
@@ -401,7 +407,9 @@ impl SchedModel {
             .map(|i| self.pool.height(*i))
             .max();
         let Ok(info) = s.w.info() else { return };
-        let must_refuse = max_announced.map_or(false, |m| m > info.height + 2);
+        // with the flag off nothing is refused for being behind; the headers announced
+        // meanwhile count from the moment it is switched on
+        let must_refuse = s.gate_on && max_announced.map_or(false, |m| m > info.height + 2);
         let r = s.w.balance(s.w.book.text(0), None);
         let refused = matches!(&r, Err(p) if p.starts_with("Canister state is not fully synced"));
         let answered = matches!(&r, Ok(Ok(_)));
@@ -479,7 +487,7 @@ impl Model for SchedModel {
         // a non-default blocks source, so that the destination of the requests is observable
         let mut wcfg = WorldCfg::on(self.net, self.theta);
         wcfg.custom_source = true;
-        wcfg.disable_if_not_synced = self.sync_gate;
+        wcfg.disable_if_not_synced = self.sync_gate && !self.gate_toggle;
         let w = World::new(wcfg);
         rt::enable_yield_point(true);
         let _ = rt::take_built_requests();
@@ -494,6 +502,7 @@ impl Model for SchedModel {
             last_was_upgrade: false,
             syncing: true,
             announced_ref: Default::default(),
+            gate_on: self.sync_gate && !self.gate_toggle,
         }
     }
 
@@ -503,6 +512,9 @@ impl Model for SchedModel {
         }
         let dev_ok = s.deviations < self.max_deviations;
         let mut evs = vec![];
+        if self.gate_toggle && !s.gate_on && !hist.is_empty() {
+            evs.push(SEv::SetGate);
+        }
         if !s.syncing {
             // while syncing is off the controller's next move is to switch it on again
             // (possibly after heartbeats and replies to a request that was already out)
@@ -734,6 +746,23 @@ impl Model for SchedModel {
                 }
                 self.absorb(s, out, check);
             }
+            SEv::SetGate => {
+                let r = s.w.set_config(ic_btc_interface::SetConfigRequest {
+                    disable_api_if_not_fully_synced: Some(ic_btc_interface::Flag::Enabled),
+                    ..Default::default()
+                });
+                if let Err(p) = r {
+                    s.dead = true;
+                    if check {
+                        out.violation("set-config-trap", None, json!({"panic": p}));
+                    }
+                    return false;
+                }
+                s.gate_on = true;
+                if check {
+                    out.count("sync_flag_switched_on_mid_history");
+                }
+            }
             SEv::SetSyncing(on) => {
                 if !*on {
                     s.deviations += 1;
@@ -888,6 +917,7 @@ impl Model for SchedModel {
         b.push(s.last_was_upgrade as u8);
         b.push(s.dead as u8);
         b.push(s.syncing as u8);
+        b.push(s.gate_on as u8);
         b.push(0xFE);
         for i in &s.announced_ref {
             b.push(*i as u8);
